@@ -142,7 +142,8 @@ type cmp struct {
 	// counters of what was actually compared
 	Nodes, Leaves, Lookups int
 	Attrs, IfFs, Held      int
-	CaseDrops              int
+	CaseDrops, WrongPrefix int
+	outLate                []Disc
 	subOwner               string         // while walking a submodule's own tree: the module it belongs to
 	Special                map[string]int // leaves whose type chain ends in an enumeration, leafref, decimal64, union
 }
@@ -505,6 +506,15 @@ func names(x *schema.X) []string {
 	return n
 }
 
+// chain0 lists the nodes from below the root down to x.
+func chain0(x *schema.X) []*schema.X {
+	var ch []*schema.X
+	for ; x.Parent != nil; x = x.Parent {
+		ch = append([]*schema.X{x}, ch...)
+	}
+	return ch
+}
+
 // findChecks does the C17 round trips on sampled (start, target) pairs.
 func (c *cmp) findChecks(rng *rand.Rand, res *schema.Resolver, pairs int) {
 	var all []*schema.X
@@ -579,6 +589,41 @@ func (c *cmp) findChecks(rng *rand.Rand, res *schema.Resolver, pairs int) {
 							under = t.Kind
 						}
 						c.out = append(c.out, Disc{Class: "find-nonexistent", Detail: fmt.Sprintf("Find(%s) from %s returned %s", bogus, a.Path(), got.Path()), Facts: map[string]any{"bogus_step_under": under}})
+					}
+					// an inner step under the prefix of another module: a step is a qualified
+					// name, and there is no child of that name in that module's namespace
+					// (recorded finding c17-inner-step-prefixes-are-not-checked: goyang looks at
+					// the prefix of the first step only)
+					if len(chain0(b)) >= 2 {
+						ch := chain0(b)
+						var others []string // prefixes the start file binds to modules other than the one that placed the step
+						k := 1 + rng.Intn(len(ch)-1)
+						placing := ch[k].Placing
+						if f.Module() != placing && f.Prefix != "" {
+							others = append(others, f.Prefix)
+						}
+						for _, im := range f.Imports {
+							if im.Mod != placing {
+								others = append(others, im.Prefix)
+							}
+						}
+						if len(others) > 0 && placing != nil {
+							wrong := ""
+							for q, x := range ch {
+								px := pfx
+								if q == k {
+									px = others[rng.Intn(len(others))]
+								}
+								wrong += "/" + px + ":" + x.Name
+							}
+							c.Lookups++
+							c.WrongPrefix++
+							if got := ea.Find(wrong); got != nil {
+								// (kept apart until the end of the case, so that this recorded finding
+								// does not stop the stages that run only on sets without a discrepancy)
+								c.outLate = append(c.outLate, Disc{Class: "find-ignores-inner-prefix", Detail: fmt.Sprintf("Find(%s) from %s returned %s although step %d is written under a prefix of another module than the one whose text placed %s", wrong, a.Path(), got.Path(), k+1, ch[k].Name), Facts: map[string]any{"bogus_step_under": "wrong-inner-prefix"}})
+							}
+						}
 					}
 					// the path with an explicit case step left out: a case is a step like any
 					// other, so what stands inside it is not a child of the choice
@@ -1106,6 +1151,7 @@ func Run(j *job.Job, s *job.Sink) {
 				c.shorthandAugment(rng, res, cs.Files, func(k string, n int64) { s.Count(k, n) })
 			}
 		}()
+		c.out = append(c.out, c.outLate...)
 		s.Count("nodes_compared", int64(c.Nodes))
 		s.Count("statement_attributes_compared", int64(c.Attrs))
 		s.Count("nodes_with_if_features_compared", int64(c.IfFs))
@@ -1116,6 +1162,7 @@ func Run(j *job.Job, s *job.Sink) {
 		s.Count("find_lookups", int64(c.Lookups))
 		s.Count("find_lookups_on_held_trees", int64(c.Held))
 		s.Count("find_lookups_with_a_case_left_out", int64(c.CaseDrops))
+		s.Count("find_lookups_with_a_wrong_inner_prefix", int64(c.WrongPrefix))
 		reported := map[string]bool{}
 		for k := range c.out {
 			d := &c.out[k]
